@@ -232,9 +232,20 @@ class VM:
             return self._execute()
         except MemoryError:
             # The host ran out of memory before the approximate accounting noticed
+            self._unwind()
             raise MemoryLimitError("Memory limit exceeded: allocation failed")
+        except BaseException:
+            self._unwind()
+            raise
         finally:
             values_module.to_primitive_hook = outer_hook
+
+    def _unwind(self) -> None:
+        """A run that failed leaves no frames or operands behind: built-in method
+        closures created by this interpreter (a stored `f.call`, `arr.map`) may be
+        called by later evaluations and must start from empty stacks."""
+        self.stack.clear()
+        self.call_stack.clear()
 
     def _check_limits(self) -> None:
         """Check memory and time limits."""
